@@ -150,7 +150,8 @@ def one(chk, P, name):
         T = tracer_of(b['marker'])
         need = f"{b['marker']}>{prev if prev is not None else '0'}"
         alt = f"{prev if prev is not None else '0'}<{b['marker']}"
-        okz = need in b.get('extra', []) or alt in b.get('extra', [])
+        ex_ = [re.sub(r'(?<![\w.])0\.0(?![\w.])', '0', x) for x in b.get('extra', [])]      # the literal 0.0 is the number 0
+        okz = need in ex_ or alt in ex_
         chk.check(okz, 'C09-R2', GH, name, f'{T}: an empty slice selects no host (branch tests {need})',
                   f'guards {b.get("guard")}, {b.get("extra")}',
                   f'branch "{unparse(b["node"].test)[:70]}": when the {T} slice is empty at this host (tracer off, or on with mean occupation exactly 0) {b["marker"]} equals '
@@ -267,10 +268,14 @@ def one(chk, P, name):
         rsd = [st for st in body if isinstance(st, ast.If) and 'rsd' in unparse(st.test)]
         okr = False
         detail = ''
-        if len(rsd) == 1 and unparse(rsd[0].test) == 'rsd and origin is not None' and len(rsd[0].orelse) == 1 and isinstance(rsd[0].orelse[0], ast.If) \
-                and unparse(rsd[0].orelse[0].test) == 'rsd' and not rsd[0].orelse[0].orelse:
-            bb = rsd[0].orelse[0].body
-            if len(bb) == 1 and isinstance(bb[0], ast.Assign) and unparse(bb[0].targets[0]) == f'{pre}_z[{cur}]' and isinstance(bb[0].value, ast.Call) \
+        # which statements run for (rsd, observer) is decided by evaluating the tests of the if/elif chain for the four cases:
+        # nothing without rsd; the single z <- wrap(...) store for the box observer; the line-of-sight block for an origin
+        if len(rsd) == 1:
+            sel = {(r_, o_): _select_rsd(rsd[0], r_, o_) for r_ in (False, True) for o_ in (False, True)}
+            bb = sel[(True, False)]
+            los = sel[(True, True)]
+            if None not in sel.values() and sel[(False, False)] == [] and sel[(False, True)] == [] and los and los is not bb \
+                    and len(bb) == 1 and isinstance(bb[0], ast.Assign) and unparse(bb[0].targets[0]) == f'{pre}_z[{cur}]' and isinstance(bb[0].value, ast.Call) \
                     and dotted(bb[0].value.func) == 'wrap' and len(bb[0].value.args) == 2 and unparse(bb[0].value.args[1]) == 'lbox':
                 try:
                     arg = to_poly(BPEval({}, inp, ()).ev(bb[0].value.args[0]))
@@ -295,6 +300,37 @@ def one(chk, P, name):
     same = all(b[1] == blocks[0][1] for b in blocks) if blocks else False
     chk.check(same and len(blocks) == 3, 'C09-R4', GH, name, 'the three tracer blocks of the fill pass are alpha-equivalent', '',
               'the LRG / ELG / QSO fill blocks differ beyond the renaming of prefix, cursor and parameter suffix', node=P.fill)
+
+
+def _select_rsd(node, rsd, has_origin):
+    """The statement list an if/elif/else chain over `rsd` and `origin is [not] None` executes for the given case ([] if none);
+    None when a test reads anything else."""
+    def ev(t):
+        if isinstance(t, ast.Name) and t.id == 'rsd':
+            return rsd
+        if isinstance(t, ast.Compare) and len(t.ops) == 1 and unparse(t.left) == 'origin' and unparse(t.comparators[0]) == 'None' \
+                and isinstance(t.ops[0], (ast.Is, ast.IsNot)):
+            return (not has_origin) if isinstance(t.ops[0], ast.Is) else has_origin
+        if isinstance(t, ast.UnaryOp) and isinstance(t.op, ast.Not):
+            v = ev(t.operand)
+            return None if v is None else not v
+        if isinstance(t, ast.BoolOp):
+            vs = [ev(v) for v in t.values]
+            if None in vs:
+                return None
+            return all(vs) if isinstance(t.op, ast.And) else any(vs)
+        return None
+    c = node
+    while True:
+        v = ev(c.test)
+        if v is None:
+            return None
+        if v:
+            return c.body
+        if len(c.orelse) == 1 and isinstance(c.orelse[0], ast.If):
+            c = c.orelse[0]
+            continue
+        return c.orelse
 
 
 def _only_decorated(n):
